@@ -51,3 +51,65 @@ Proof.
   eexists. split; [vm_compute; reflexivity|]. split; [reflexivity|]. split; [vm_compute; reflexivity|].
   split; vm_compute; reflexivity.
 Qed.
+
+(* ---- complete runs, for C02 / C03 / C15 ---- *)
+From BD.Sched Require Import ProofsFinal ProofsTerm.
+
+Lemma diamond_wf : wf_deps diamond.
+Proof.
+  exists (fun i => i). intros i d Hi Hd.
+  destruct i as [|[|[|[|i]]]]; cbn in Hd; try (exfalso; cbn in Hi; lia); intuition (subst; cbn; lia).
+Qed.
+
+(* the diamond run to completion: b was retried once, everything finished *)
+Lemma diamond_done :
+  exists s, run diamond (init diamond) diamond_full = Some s /\ pc s = LDone /\ quiet s /\ dry diamond = false /\
+    map (fun i => (st (nd s i), rc (nd s i), att (nd s i), outs (nd s i))) [0; 1; 2; 3] =
+      [(NSuccess, 0, 1, [true]); (NSuccess, 1, 2, [true; false]); (NSuccess, 0, 1, [true]); (NSuccess, 0, 1, [true])] /\
+    length diamond_full <= bound diamond.
+Proof.
+  eexists. split; [vm_compute; reflexivity|]. split; [vm_compute; reflexivity|].
+  split; [split; vm_compute; reflexivity|]. split; [reflexivity|]. split; [vm_compute; reflexivity|].
+  vm_compute. repeat constructor.
+Qed.
+
+(* a run with every kind of outcome: a fails twice (limit 1) and blocks b; c has an unmet precondition and, without
+   continueOn.skipped, makes d skipped; e is independent and finishes *)
+Definition mixed : cfg :=
+  mkcfg [ sd [] 1;
+          sd [0] 0;
+          {| deps := []; cof := false; cos := false; rlimit := 0; pre := false; sfail := false; repeat := false |};
+          sd [2] 0;
+          sd [] 0 ] 0 false true.
+Definition attempt (i : nat) (ok : bool) : list label := launch i ++ [WExecEnd i ok; WAfter i false].
+Definition mixed_full : list label :=
+  attempt 0 false ++ [WRetryWake 0] ++ attempt 0 false ++
+  [LMark 1 0; LCommit 2; LSkipPre 2; LMark 3 2] ++
+  attempt 4 true ++ [WFinish 4; LExit; HBegin; HFinish].
+Lemma mixed_ok : donech mixed = true /\ norepeat mixed.
+Proof. split; [reflexivity|]. apply norepeat_mkcfg. reflexivity. Qed.
+Lemma mixed_done :
+  exists s, run mixed (init mixed) mixed_full = Some s /\ pc s = LDone /\ quiet s /\ dry mixed = false /\
+    map (fun i => (st (nd s i), rc (nd s i), att (nd s i))) [0; 1; 2; 3; 4] =
+      [(NError, 1, 2); (NCancel, 0, 0); (NSkipped, 0, 0); (NSkipped, 0, 0); (NSuccess, 0, 1)] /\
+    map (blocked mixed s) [0; 1; 2; 3; 4] = [false; true; false; true; false] /\
+    map (runnable mixed s) [0; 1; 2; 3; 4] = [true; false; false; false; true] /\
+    lasterr s = true.
+Proof.
+  eexists. split; [vm_compute; reflexivity|]. split; [vm_compute; reflexivity|].
+  split; [split; vm_compute; reflexivity|]. split; [reflexivity|].
+  split; [vm_compute; reflexivity|]. split; [vm_compute; reflexivity|]. split; vm_compute; reflexivity.
+Qed.
+
+(* a dry run of the diamond: no command, every node finished *)
+Definition diamond_dry : cfg := mkcfg [sd [] 0; sd [0] 1; sd [0] 0; sd [1; 2] 0] 2 true true.
+Definition dry_node (i : nat) : list label := [LCommit i; LLaunch i; WTest i; WDryExec i; WAfter i false; WFinish i].
+Definition diamond_dry_full : list label :=
+  dry_node 0 ++ dry_node 1 ++ dry_node 2 ++ dry_node 3 ++ [LExit; HBegin; HFinish].
+Lemma diamond_dry_done :
+  exists s, run diamond_dry (init diamond_dry) diamond_dry_full = Some s /\ pc s = LDone /\ dry diamond_dry = true /\
+    map (fun i => (st (nd s i), att (nd s i))) [0; 1; 2; 3] = [(NSuccess, 0); (NSuccess, 0); (NSuccess, 0); (NSuccess, 0)].
+Proof.
+  eexists. split; [vm_compute; reflexivity|]. split; [vm_compute; reflexivity|]. split; [reflexivity|].
+  vm_compute; reflexivity.
+Qed.
